@@ -284,6 +284,43 @@ func (m *Decisions) AfterScan(ctx *h.ScanCtx) []h.Violation {
 			}
 		}
 
+		// ---- C05: amount (equal node sizes, from the view). Holds under failing untaint writes as well
+		// (a node whose untaint failed is not in service), and when a trigger coincides with high
+		// utilisation (the trigger only raises the amount to at least one).
+		faultsOnlyNodeWrites := true
+		for _, e := range ctx.Entries {
+			if e.Err == "injected" && e.Op != sim.OpK8sGet && e.Op != sim.OpK8sUpdate {
+				faultsOnlyNodeWrites = false
+			}
+		}
+		if d.Class == "up" && d.NMin > 0 && !d.FromZero && (!ctx.Faulted || faultsOnlyNodeWrites) {
+			ctx.H.Cov["c05.up-scans"]++
+			got := int64(len(g.U) + len(o.removes) + o.noopRemoves)
+			clamped := false
+			for _, e := range o.incr {
+				if e.Op == sim.OpSetDesired {
+					got += e.Val - e.RealDesired
+					clamped = clamped || e.Val >= B
+				} else {
+					got += e.Val
+					clamped = clamped || e.RealDesired+e.Val >= B
+				}
+			}
+			if len(o.incr) == 0 && B-g.CloudDesired <= 0 {
+				clamped = true
+			}
+			if !clamped && (got < int64(d.NMin) || got > int64(d.NMin+1)) {
+				sig := "C05/amount"
+				if ctx.Faulted {
+					sig = "C05/amount/under-untaint-failure"
+				} else if d.MaxAge || d.Starve {
+					sig = "C05/amount/with-trigger"
+				}
+				add("C05", sig, fmt.Sprintf("group %s: requests %dm/%dB on %d untainted equal nodes, threshold %d: minimal sufficient node count %d, scan brought the group to %d (untainted %d, requested %d)",
+					g.Name, d.ReqCPU, d.ReqMem, len(g.U), g.Spec.Opts.ScaleUpThresholdPercent, d.NMin, got, len(o.removes)+o.noopRemoves, got-int64(len(g.U)+len(o.removes)+o.noopRemoves)))
+			}
+		}
+
 		if ctx.Faulted {
 			// the remaining clauses are stated for fault-free scans; a scan whose only injected failures
 			// hit removal calls (terminate / Kubernetes delete) still has to taint by the band rule
@@ -338,29 +375,6 @@ func (m *Decisions) AfterScan(ctx *h.ScanCtx) []h.Violation {
 			}
 			if rem > 0 && asked != exp {
 				add("C03", "C03/restore-request", fmt.Sprintf("group %s: restore needs %d more after %d untaints, headroom %d: expected a request for %d, saw %d", g.Name, rem, len(o.removes), head, exp, asked))
-			}
-		}
-
-		// ---- C05: amount (equal node sizes, from the view)
-		if d.Class == "up" && d.NMin > 0 && !d.FromZero && !d.Starve && !d.MaxAge {
-			ctx.H.Cov["c05.up-scans"]++
-			got := int64(len(g.U) + len(o.removes) + o.noopRemoves)
-			clamped := false
-			for _, e := range o.incr {
-				if e.Op == sim.OpSetDesired {
-					got += e.Val - e.RealDesired
-					clamped = clamped || e.Val >= B
-				} else {
-					got += e.Val
-					clamped = clamped || e.RealDesired+e.Val >= B
-				}
-			}
-			if len(o.incr) == 0 && B-g.CloudDesired <= 0 {
-				clamped = true
-			}
-			if !clamped && (got < int64(d.NMin) || got > int64(d.NMin+1)) {
-				add("C05", "C05/amount", fmt.Sprintf("group %s: requests %dm/%dB on %d untainted equal nodes, threshold %d: minimal sufficient node count %d, scan brought the group to %d",
-					g.Name, d.ReqCPU, d.ReqMem, len(g.U), g.Spec.Opts.ScaleUpThresholdPercent, d.NMin, got))
 			}
 		}
 
